@@ -31,6 +31,14 @@ def handleExport (op : String) (args : List String) : String :=
     match parseTsCsv? user, parseHw? bx, parseHw? byy, parseTsCsv? anc with
     | some u, some bx, some byy, some a => showTs (exportTransform u bx byy a)
     | _, _, _, _ => "bad-op"
+  | "canvas", [l, t, r, b, sc] =>
+    -- the box is the node's absolute box (f32 bits); answer: refused, or the canvas the scale asks for
+    match parseF32? l, parseF32? t, parseF32? r, parseF32? b, parseF32? sc with
+    | some l, some t, some r, some b, some sc =>
+      match renderNodeCanvas l t r b sc with
+      | some _ => "some"
+      | none => "none"
+    | _, _, _, _, _ => "bad-op"
   | "findid", id :: "[" :: rest =>
     match unhex? (if id == "-" then "" else id), parseIdNodes rest with
     | some id, some (t, []) =>
